@@ -1161,7 +1161,8 @@ class PolyhedralTermList(TermList):  # noqa: WPS338
             return False
         n, m = a.shape
         if n * m == 0:
-            return False
+            # no columns: every row reads 0 <= b_i, which nothing satisfies when some b_i is negative
+            return bool(np.any(np.asarray(b) < 0))
         assert n == len(b)
         objective = np.zeros((1, m))
         res = linprog(c=objective, A_ub=a, b_ub=b, bounds=(None, None))  # ,options={'tol':0.000001})
